@@ -10,6 +10,8 @@ CHECKS = {
          "Lean 4 proof (induction over the equation list) + exact triplet correspondence", "§3 C04"),
  "C07": ("the Rodas tables are re-read from the running Rodas_param on every run and Lean re-proves, by kernel evaluation over exact rationals, the order conditions of every rooted tree (complete enumeration, proved complete) up to the declared order for b, order-1 for the embedded weights, the dense-output conditions coefficient-wise in tau, stiff accuracy and the row-sum consistency of a and g; the stage loop and dense formula of Rodas are tied to the Lean stage loop by differential runs; h-ladders on ODE and index-1 DAE problems search for order loss",
          "Lean 4 proof by kernel evaluation (decide +kernel) on tables translated from source + stage-loop correspondence + h-ladder search", "§3 C07"),
+ "C06": ("Lean theorems that each algebraic solver's success flag equals (residual at the returned point < tol) for every residual function incl. NaN (loop invariant for Newton / continuous Newton; final fresh evaluation for lm / sicnm); the Newton controller is tied to nr_method by exact scripted-oracle runs (residuals on/around the tolerance, NaN, inf), all four solvers by an independent flag oracle on constructed families; basin convergence is sampled only",
+         "Lean 4 proof (loop invariant by induction on iterations) + scripted-oracle correspondence + flag oracle on constructed families", "§3 C06"),
 }
 REASONS = {}
 props = [json.loads(l)["id"] for l in open(os.path.join(V, "properties.jsonl"))]
